@@ -41,8 +41,9 @@ THEOREMS = {
 
 
 WRITERS = os.path.join(VERIF, "coq", "writers")
+READERS = os.path.join(VERIF, "coq", "readers")
 E2E = os.path.join(VERIF, "coq", "e2e")
-E2E_THEOREMS = ["C01_sample_writer_lossless", "C01_end_to_end_samples", "C01_end_to_end_encoder", "C01_end_to_end_sample_writer", "C01_written_metadata_is_read", "C01_end_to_end_nonvacuous"]
+E2E_THEOREMS = ["C01_written_samples_are_read", "C01_sample_writer_lossless", "C01_end_to_end_samples", "C01_end_to_end_encoder", "C01_end_to_end_sample_writer", "C01_written_metadata_is_read", "C01_end_to_end_nonvacuous"]
 E2E_REQUIRES = ["FlacWriters.Meta", "FlacWriters.Params", "FlacWriters.Finalize", "FlacWriters.Writers", "FlacE2E.Bridge", "FlacE2E.E2E", "FlacE2E.Props_E2E"]
 
 
@@ -55,10 +56,10 @@ def proof_stage(chk, pid, theorems=None, requires=None):
         # C01 also claims the end-to-end composition (coq/e2e): writers' Encoder x codec's block encoder x codec's stream decoder
         gen.append("python3 %s/tools/gen_writers.py %s %s/GenWriters.v" % (VERIF, vlib.REPO, WRITERS))
         return vlib.proof_stage(
-            chk, coq_dirs=[BASE, CODEC, WRITERS, E2E], build_dir=E2E,
-            qflags="-Q ../base FlacBase -Q ../codec FlacCodec -Q ../writers FlacWriters -Q . FlacE2E",
+            chk, coq_dirs=[BASE, CODEC, WRITERS, READERS, E2E], build_dir=E2E,
+            qflags="-Q ../base FlacBase -Q ../codec FlacCodec -Q ../writers FlacWriters -Q ../readers FlacReaders -Q . FlacE2E",
             requires=reqs + E2E_REQUIRES, theorems=E2E_THEOREMS + thms,
-            obligation_files=[(BASE, ["Res.v", "Bits.v", "Crc.v", "Pins.v"]), (CODEC, coq_files()), (E2E, ["Bridge.v", "E2E.v", "Sample.v", "SampleE2E.v", "Success.v", "Props_E2E.v"])],
+            obligation_files=[(BASE, ["Res.v", "Bits.v", "Crc.v", "Pins.v"]), (CODEC, coq_files()), (E2E, ["Bridge.v", "E2E.v", "Sample.v", "SampleE2E.v", "Success.v", "ReadBridge.v", "ReadersE2E.v", "Props_E2E.v"])],
             gen_steps=gen)
     return vlib.proof_stage(
         chk, coq_dirs=[BASE, CODEC], build_dir=CODEC, qflags="-Q ../base FlacBase -Q . FlacCodec",
